@@ -292,6 +292,8 @@ def builtin_value(fr, name, args, kw, n):
             return (name, a0[1])
         if a0[0] == 'nd' and a0[1][0] in ('list', 'tuple'):
             return (name, a0[1][1])
+        if a0[0] in ('dict', 'table'):
+            return (name, tuple(C(k) for k, _ in a0[1]))          # iterating a mapping yields its keys
         if a0[0] == 'keys' and len(a0) > 2 and a0[2][0] in ('dict', 'table'):
             return (name, tuple(C(k) for k in a0[1]))
         if a0[0] == 'map':
@@ -422,7 +424,7 @@ def term_kind(fr, t):
         return 'series'
     if tag == 'arr':
         return term_kind(fr, t[1]) or 'ndarray'          # element stores keep the python type of the container
-    if tag in ('map',) or (tag == 'call' and t[1] in ('array', 'zeros', 'asarray', 'flatten', 'append')):
+    if tag in ('map',) or (tag == 'call' and (t[1] in ('array', 'zeros', 'ones', 'asarray', 'flatten', 'append', 'flatnonzero', 'astype') or t[1] in NP_DIRECT)):
         return 'ndarray' if not (tag == 'map') else 'list'
     if tag == 'atom':
         return {'intarr': 'ndarray', 'arr': 'ndarray', 'boolarr': 'ndarray', 'table': 'df', 'dict': 'dict', 'list': 'list'}.get(t[2])
@@ -490,6 +492,8 @@ def external(fr, dotted, args, kw, extra, n):
     ctx = fr.ctx
     parts = dotted.split('.')
     top, name = parts[0], parts[-1]
+    if top == 'numpy' and name not in ('array', 'asarray'):
+        args = [a[1] if a[0] == 'nd' else a for a in args]        # numpy functions see values: the list/Series -> ndarray marker is irrelevant inside
     if top in ('numpy', 'pandas') and name in NP_SIG:
         args, kw = positional_form(NP_SIG[name], args, kw)
     elif top in ('neurodsp', 'scipy'):
@@ -546,8 +550,9 @@ def external(fr, dotted, args, kw, extra, n):
             return ('ctxmgr', 'errstate')
         if name == 'isnan' and a0 is not None and a0[0] in ('list', 'tuple'):
             return T.call('isnan', (('tuple', a0[1]),))
-        if name == 'mean' and a0 is not None and a0[0] in ('list', 'tuple') and not kw:
-            return T.call('mean', (('tuple', T.sort_terms(a0[1])),))
+        if name == 'mean' and a0 is not None and a0[0] in ('list', 'tuple') and not kw and len(args) == 1 and a0[1]:
+            # mean of a literal list of scalars == their sum / n (exact for two elements)
+            return T.lin(0, [(x, T.Fraction(1, len(a0[1]))) for x in a0[1]])
         if name in ('ceil', 'floor') and a0 is not None and T.isnum(a0):
             import math
             return C(int(math.ceil(a0[1]) if name == 'ceil' else math.floor(a0[1])))
@@ -779,8 +784,12 @@ def method(fr, recv, recv_node, name, args, kw, extra, n):
             ctx.event('mutate', 'rename', (recv, m), guard=guard, loops=loops, where=where, extra={'target': ast.unparse(recv_node)})
             return NONE
         return new
+    if name == 'drop' and a0 is None and 'columns' in kw:
+        a0, args, kw = kw['columns'], [kw['columns']], dict({k: v for k, v in kw.items() if k != 'columns'}, axis=C(1))      # drop(columns=c) == drop(c, axis=1)
     if name == 'drop' and a0 is not None:
         axis = kw.get('axis', args[1] if len(args) > 1 else C(0))
+        if axis == C('columns'):
+            axis = C(1)
         inplace = kw.get('inplace') == TRUE
         new = T.call('dropcols' if axis == C(1) else 'droprows', (recv, a0))
         if tag == 'table' and axis == C(1) and a0[0] in ('list', 'tuple') and all(T.isconst(x) for x in a0[1]):
